@@ -51,11 +51,12 @@ func openStore(c *fw.Ctx, kind int, g *lab.PathGen, model map[string][]byte, tag
 			st.name = "layered(memory over persistent)"
 		}
 		m0 := lab.NewMPT(base, 1, nil)
+		var psc lab.Scratch
 		nb := c.Rng.Intn(14)
 		for i := 0; i < nb; i++ {
 			p := g.Pick(lab.SortedKeys(model))
 			v := lab.GenValue(c.Rng, i)
-			if _, err := m0.Insert(util.Path(p), &lab.Val{B: v}); err != nil {
+			if _, err := m0.Insert(psc.P(p), &lab.Val{B: v}); err != nil {
 				panic(fmt.Sprintf("base insert failed: %v", err))
 			}
 			model[p] = v
@@ -70,6 +71,7 @@ func openStore(c *fw.Ctx, kind int, g *lab.PathGen, model map[string][]byte, tag
 }
 
 func runC01(c *fw.Ctx) {
+	var psc lab.Scratch // every path handed to the trie lives in this re-used buffer
 	r := c.Rng
 	g := lab.NewPathGen(r)
 	model := map[string][]byte{}
@@ -125,7 +127,7 @@ func runC01(c *fw.Ctx) {
 			opName = "ins"
 			v := lab.GenValue(r, i)
 			c.Tracef("ins %q=%q", p, v)
-			key, err := m.Insert(util.Path(p), &lab.Val{B: v})
+			key, err := m.Insert(psc.P(p), &lab.Val{B: v})
 			if err != nil {
 				fail("Insert(%q) failed: %v", p, err)
 				return
@@ -138,7 +140,7 @@ func runC01(c *fw.Ctx) {
 		case op < 84:
 			opName = "del"
 			c.Tracef("del %q", p)
-			_, err := m.Delete(util.Path(p))
+			_, err := m.Delete(psc.P(p))
 			if present {
 				if err != nil {
 					fail("Delete(%q) of a present path failed: %v", p, err)
@@ -161,10 +163,10 @@ func runC01(c *fw.Ctx) {
 			var err error
 			if r.Intn(2) == 0 {
 				c.Tracef("ins %q=<nil>", p)
-				_, err = m.Insert(util.Path(p), nil)
+				_, err = m.Insert(psc.P(p), nil)
 			} else {
 				c.Tracef("ins %q=<empty encoding>", p)
-				_, err = m.Insert(util.Path(p), &lab.Val{})
+				_, err = m.Insert(psc.P(p), &lab.Val{})
 			}
 			if present {
 				if err != nil {
@@ -186,7 +188,7 @@ func runC01(c *fw.Ctx) {
 		case op < 96:
 			opName = "getv"
 			var v lab.Val
-			err := m.GetNodeValue(util.Path(p), &v)
+			err := m.GetNodeValue(psc.P(p), &v)
 			if present {
 				if err != nil || !bytes.Equal(v.B, model[p]) {
 					fail("GetNodeValue(%q) = %q, %v; model has %q", p, v.B, err, model[p])
@@ -206,7 +208,7 @@ func runC01(c *fw.Ctx) {
 			c.Tracef("ins %q=<oversize>", p)
 			big := make([]byte, util.MPTMaxAllowableNodeSize+1)
 			big[0] = 1
-			_, err := m.Insert(util.Path(p), &lab.Val{B: big})
+			_, err := m.Insert(psc.P(p), &lab.Val{B: big})
 			if err == nil {
 				fail("Insert(%q) accepted an over-size value", p)
 				return
@@ -278,7 +280,7 @@ func init() {
 	fw.Register(&fw.Prop{
 		ID:    "C01",
 		Level: "exploration",
-		Rule: "seeded histories of 8..60 (quick) / 8..120 (thorough) operations (insert/overwrite, delete of present and absent paths, insert of nil/empty value, typed lookup, rare over-size insert) on one of four stores " +
+		Rule: "every path is handed to the trie in one re-used scratch buffer (the previous path is overwritten by the next call; returned value bytes are overwritten as well). Seeded histories of 8..60 (quick) / 8..120 (thorough) operations (insert/overwrite, delete of present and absent paths, insert of nil/empty value, typed lookup, rare over-size insert) on one of four stores " +
 			"(memory; memory over memory with base content; persistent; memory over persistent), optionally re-opening the trie (new object, cold cache) at a higher or at the same version every k operations; every fifth operation a second trie object on the same store, root and version must read the same content; every third operation Iterate over all node kinds (handed-out node keys = the reachable stored nodes, values = model), IterateFrom(root) and a handler error are checked; at the end the base state below a layered store must be unchanged. Paths are even-length lowercase hex of length 0..12 over 2-4 symbols, " +
 			"picked relative to live paths (same, proper prefix, extension, sibling, divergent tail) so that node-boundary coincidences occur. After every operation: every live path looks up to its value, ~20 related absent paths return ErrValueNotPresent, " +
 			"Iterate equals the map, every reachable node is in the store. A history is non-trivial if it contains at least one successful delete that changed the number of branch or extension nodes; distinct by full trace hash",
